@@ -360,6 +360,22 @@ def replay_seq(a):
     return {"step": step, "modulus": list(mc), "op": op, "args": args, "expected": exp, "observed": got}
 
 
+# exhaustive inverse sweeps (all residues of all primes < 1000 [4000]; window around p/phi at full size)
+def task_inv_sweep(a, env):
+    from . import C14
+    return C14.task_inv_sweep(a, env)
+
+
+def task_inv_phi(a, env):
+    from . import C14
+    return C14.task_inv_phi(a, env)
+
+
+def task_errpath_tables(a, env):
+    from . import C14
+    return C14.task_errpath_tables(a, env)
+
+
 def composite(cfg, op, args):
     """the composite (library-only) assertions; returns True if they hold"""
     xm = fl.el_from(cfg, args["x"])
@@ -594,6 +610,12 @@ def run(ctx):
                 spec.update({"fam": fam, "p": p, "mc": list(mc), "Tcap": 5})
                 tasks.append(("field", spec))
     ctx.bounds["fq12_moduli"] = {str(p): [list(m) for m in v] for p, v in d12.items()}
+    hi_p = 1000 if ctx.quick else 4000
+    for lo in range(2, hi_p, 125):
+        tasks.append(("inv_sweep", {"lo": lo, "hi": min(hi_p, lo + 125), "sample": lo == 2}))
+    tasks.append(("inv_phi", {"w": 3000 if ctx.quick else 20000}))
+    for (p, mc) in ((5, list(fl.quadratics(5)[1])), (7, [1, 0]), (3, list(fl.deg12_moduli(3)[1]))):
+        tasks.append(("errpath_tables", {"p": p, "mc": mc}))
     # exponent sweep around powers of two, bit lengths 40 .. 4500 (thorough: .. 9000)
     hi_k = 4500 if ctx.quick else 9000
     for fam in ("ref", "opt"):
